@@ -116,7 +116,7 @@ def jobs(tier, seed):
     out = []
     quick = tier == "quick"
     L = 3 if quick else 4
-    shapes = ["G-NU", "G-CAT", "G-UC", "G-DUP", "G-WIDE", "G-NB", "G-2CYC", "G-DIA"] if quick else \
+    shapes = ["G-NU", "G-CAT", "G-UC", "G-DUP", "G-WIDE", "G-NB", "G-2CYC", "G-DIA", "G-DIA2"] if quick else \
         ["G-NU", "G-CAT", "G-LR", "G-UC", "G-DUP", "G-NULL3", "G-WIDE", "G-FIN", "G-TRI", "G-MUT", "G-PAL"]
     for sh in shapes:
         sk = grammar(sh)
